@@ -115,6 +115,11 @@ def eval_cfg(c, feat):
     return v
 
 
+def vf_src(n):
+    import vf
+    return vf.src(n)
+
+
 class Interp:
     def __init__(self, env=None, src_env=None, cfg=default_cfg, on_call=None, max_steps=200000):
         self.scopes = [dict(env or {})]
@@ -439,6 +444,8 @@ class Interp:
                 return a << b
             if op == ">>":
                 return a >> b
+            if op in ("&", "|", "^") and isinstance(a, int) and isinstance(b, int):
+                return {"&": a & b, "|": a | b, "^": a ^ b}[op]
         except Exception:
             return OPAQUE
         return OPAQUE
@@ -907,6 +914,30 @@ class Interp:
             return ("None",) if recv == -2**63 else ("Some", -recv)   # 64-bit signed receiver assumed
         if m == "checked_abs" and num and isinstance(recv, int):
             return ("None",) if recv == -2**63 else ("Some", abs(recv))
+        if m in ("checked_pow", "checked_shl") and num and isinstance(recv, int) and args and isinstance(args[0], int):
+            # the receiver's integer type comes from the literal's suffix (e.g. 256i128, 1u32); anything else is not modelled
+            rn = e["r"]
+            suf = None
+            if rn.get("k") == "lit":
+                import re as _re
+                mm = _re.search(r"([iu])(8|16|32|64|128|size)$", str(rn.get("s") or vf_src(rn)))
+                if mm:
+                    suf = (mm.group(1) == "i", 64 if mm.group(2) == "size" else int(mm.group(2)))
+            if suf is None:
+                raise Unknown("%s on a receiver of unknown integer type" % m)
+            signed, bits = suf
+            lo, hi = (-(1 << (bits - 1)), (1 << (bits - 1)) - 1) if signed else (0, (1 << bits) - 1)
+            if m == "checked_shl":
+                if args[0] >= bits:
+                    return ("None",)
+                r = (int(recv) << args[0]) & ((1 << bits) - 1)
+                if signed and r > hi:
+                    r -= 1 << bits
+                return ("Some", r)
+            if args[0] > 4096:
+                return ("None",)
+            r = int(recv) ** args[0]
+            return ("Some", r) if lo <= r <= hi else ("None",)
         if m in ("checked_add", "checked_sub", "checked_mul") and num and args and isinstance(args[0], int):
             r = {"checked_add": recv + args[0], "checked_sub": recv - args[0], "checked_mul": recv * args[0]}[m]
             return ("Some", r) if -2**63 <= r < 2**64 else ("None",)
